@@ -744,7 +744,9 @@ func (u *Unit) buildReplay(o *Obligation, prop string, timeoutS int) *ReplayInfo
 				continue
 			}
 			cnt := 0
+			globalMu.Lock()
 			replayPreds = u.eng.specs.Preds
+			globalMu.Unlock()
 			g, ok := specToGo(en.E, names, u.eng.specs.Consts, &cnt)
 			if !ok {
 				ri.Reason = "postcondition is not in the executable subset (uninterpreted functions, old() or arithmetic)"
